@@ -46,7 +46,7 @@ func genEscStr(t *rapid.T, label string) string {
 	return sb.String()
 }
 
-var mildAlphabet = []string{"a", "b", " ", "&amp;", "&lt;", "&gt;", "&quot;", "&#x41;", "&#65;", "é", "x", "]]", "--", "1", "\U0001F600", "\U00011000", "\U0010FFFD", "\u2028", "&amp;lt;"}
+var mildAlphabet = []string{"a", "b", " ", "&amp;", "&lt;", "&gt;", "&quot;", "&#x41;", "&#65;", "é", "x", "]]", "--", "1", "\U0001F600", "\U00011000", "\U0010FFFD", "\u2028", "&amp;lt;", "%", "%d", "%%"}
 
 func genMildStr(t *rapid.T, label string) string {
 	n := rapid.IntRange(1, 5).Draw(t, label+"n")
